@@ -388,6 +388,31 @@ def _domain_chain(var: str, binders: dict[str, ast.expr], root: str) -> bool:
     return False
 
 
+def _helper_as_any(h: Func, target: str) -> tuple[str, str] | None:
+    """(x, attr) when h(p) is `any(target(x) for x in p.attr)`: written as that expression, or as the loop `for x in p.attr: if target(x): return True` followed by
+    `return False`"""
+    p = h.params[0]
+    body = [b for b in h.node.body if not (isinstance(b, ast.Expr) and isinstance(b.value, ast.Constant))]
+    if len(body) == 1 and isinstance(body[0], ast.Return) and body[0].value is not None:
+        m = norm.match(T(f"any({target}($x) for $y in {p}.$a)"), body[0].value)
+        v = body[0].value
+        if isinstance(v, ast.Call) and isinstance(v.func, ast.Name) and v.func.id == "any" and len(v.args) == 1 and isinstance(v.args[0], (ast.GeneratorExp, ast.ListComp)) \
+                and len(v.args[0].generators) == 1 and not v.args[0].generators[0].ifs and isinstance(v.args[0].generators[0].target, ast.Name):
+            g = v.args[0].generators[0]
+            if isinstance(g.iter, ast.Attribute) and isinstance(g.iter.value, ast.Name) and g.iter.value.id == p \
+                    and norm.match(T(f"{target}({g.target.id})"), v.args[0].elt) is not None:
+                return g.target.id, g.iter.attr
+        return None
+    if len(body) == 2 and isinstance(body[0], ast.For) and isinstance(body[0].target, ast.Name) and not body[0].orelse and isinstance(body[1], ast.Return) \
+            and isinstance(body[1].value, ast.Constant) and body[1].value.value is False:
+        lp = body[0]
+        if isinstance(lp.iter, ast.Attribute) and isinstance(lp.iter.value, ast.Name) and lp.iter.value.id == p and len(lp.body) == 1 and isinstance(lp.body[0], ast.If) \
+                and not lp.body[0].orelse and norm.match(T(f"{target}({lp.target.id})"), lp.body[0].test) is not None and len(lp.body[0].body) == 1 \
+                and isinstance(lp.body[0].body[0], ast.Return) and isinstance(lp.body[0].body[0].value, ast.Constant) and lp.body[0].body[0].value.value is True:
+            return lp.target.id, lp.iter.attr
+    return None
+
+
 def _nested_scan(repo: Repo, f: Func, fl: Flow, root: str, target: str, depth: int) -> Site | None:
     """a return site of `f` that yields a true value exactly when `target(x)` holds for some op x nested in `root`"""
     parents: dict[int, ast.AST] = {}
@@ -438,6 +463,21 @@ def _nested_scan(repo: Repo, f: Func, fl: Flow, root: str, target: str, depth: i
                         binders[gen.target.id] = gen.iter
                     if gen.ifs:
                         binders.clear()  # a filtered scan does not cover every op
+                # the element may hand one level of the nesting to a helper: `any(h(block) for .. for block in region.blocks)` with
+                # `def h(b): for x in b.ops: if target(x): return True; return False` is the scan with one more generator
+                el0 = comp.elt
+                if isinstance(el0, ast.Call) and isinstance(el0.func, ast.Name) and el0.func.id != target and len(el0.args) == 1 and not el0.keywords \
+                        and isinstance(el0.args[0], ast.Name) and el0.args[0].id in binders and depth < 1:
+                    h = repo.try_func(f.module.relpath, el0.func.id)
+                    inner = _helper_as_any(h, target) if h is not None and len(h.params) == 1 else None
+                    if inner is not None:
+                        var_, attr_ = inner
+                        gens = [*comp.generators, ast.comprehension(ast.Name(var_, ast.Store()), ast.Attribute(ast.Name(el0.args[0].id, ast.Load()), attr_, ast.Load()), [], 0)]
+                        new_comp = ast.GeneratorExp(ast.Call(ast.Name(target, ast.Load()), [ast.Name(var_, ast.Load())], []), gens)
+                        new_any = ast.Call(ast.Name("any", ast.Load()), [new_comp], [])
+                        ast.fix_missing_locations(new_any)
+                        if positive_any(new_any, outer):
+                            return True
                 for c in ast.walk(comp.elt):
                     if isinstance(c, ast.Call) and isinstance(c.func, ast.Name) and c.func.id == target and len(c.args) == 1 \
                             and isinstance(c.args[0], ast.Name) and _domain_chain(c.args[0].id, binders, root):
@@ -468,6 +508,17 @@ def _nested_scan(repo: Repo, f: Func, fl: Flow, root: str, target: str, depth: i
                     return s
                 if positive_any(e, binders) and not norm.is_not(e):
                     return s
+                # one level of the nesting handed to a helper: `if h(block): return True` inside the loops over regions / blocks
+                if isinstance(e, ast.Call) and isinstance(e.func, ast.Name) and e.func.id != target and len(e.args) == 1 and not e.keywords \
+                        and isinstance(e.args[0], ast.Name) and e.args[0].id in binders and depth < 1:
+                    h = repo.try_func(f.module.relpath, e.func.id)
+                    inner = _helper_as_any(h, target) if h is not None and len(h.params) == 1 else None
+                    if inner is not None:
+                        var_, attr_ = inner
+                        b2 = dict(binders)
+                        b2[var_] = ast.Attribute(ast.Name(e.args[0].id, ast.Load()), attr_, ast.Load())
+                        if _domain_chain(var_, b2, root):
+                            return s
     return None
 
 def effects(repo: Repo, chk: Check) -> None:
